@@ -5,7 +5,7 @@ CONSTANTS
   MaxK = 2
   FKinds = {"err", "panicErr", "skip", "eof", "ctx", "excl"}
   MaxFaults = 1
-  OptSet <- OptsAll
+  OptSet <- OptsCore
   AbortCancels = TRUE
   GenChecksCtx = TRUE
   ResolverSame = TRUE
